@@ -273,8 +273,13 @@ def main(tier):
     tie["extra"]["subset_sizes"] = {str(k): v for k, v in sorted(sizes.items())}
 
     # ---- (a) enabled traits expand as in the full build; disabled ones are refused as unsupported
-    n_beh = 6 if tier == "quick" else 40
+    n_beh = 8 if tier == "quick" else 52
     beh = [("Ord",), ("Clone",), ("DerefMut",), ("PartialEq", "PartialOrd")]
+    # one partner of a coupled pair switched off while everything else is on: the code paired by cfg(feature) /
+    # cfg(not(feature)) meets the attributes of all the other traits
+    beh += [tuple(t for t in TRAITS if t != "PartialOrd"), tuple(t for t in TRAITS if t not in ("Copy", "Eq", "DerefMut"))]
+    if tier != "quick":
+        beh += [tuple(t for t in TRAITS if t != x) for x in TRAITS if x != "PartialOrd"]
     while len(beh) < n_beh:
         k = rng.randint(1, 8)
         s = tuple(sorted(rng.sample(TRAITS, k), key=TRAITS.index))
@@ -363,7 +368,7 @@ def main(tier):
     tie["rule"] = ("(b) /repo/src/lib.rs compiled by rustc (--emit=metadata, the dependency artifacts of the real build, cargo's --check-cfg for the "
                    "declared features) once per feature subset, cfg set = closure of the subset under Cargo.toml's feature table: quick = the empty "
                    "set, 12 singletons, 12 complements, 66 pairs, 60 random; thorough = all 4096. Expected: no error and no warning; empty set: the "
-                   "explicit compile_error. (a) for 6 (thorough 40) subsets the real proc-macro is linked and a pool of definitions naming only "
+                   "explicit compile_error. (a) for 8 (thorough 52) subsets (among them all-but-PartialOrd, all-but-{Copy, Eq, DerefMut}; thorough: every all-but-one subset) the real proc-macro is linked and a pool of definitions naming only "
                    "enabled traits (fixed simple forms per trait and couple + the behavioural generators) is expanded with rustc -Zunpretty=expanded; "
                    "each module's expansion must equal the all-features build's; each disabled trait must be refused with `unsupported trait`, the "
                    "message listing exactly the enabled traits; inputs that are invalid by construction (C13's stream, those naming only enabled "
